@@ -195,6 +195,12 @@ def run(ctx):
     tlc.expect_holds(rg, "Sections(nested includes) M |= S")
     ctx.add_tlc("Sections_gen_nested_includes", rg, "an included file that includes a file, with heading offsets on both")
     recs += rg.records
+    deep = {"Levels": {1, 2}, "CLevels": {1}, "Kinds": "<-NoIncs", "Incs": "<-IncsDeep", "WithPara": False, "WithNestedInc": False,
+            "DevPruneOff": False, "DevMatchTitles": False}
+    rg = tlc.run("Sections", _cfg(ctx, "s_gen_deep.cfg", {**deep, "MaxLen": 3}, invariants=invs + ["Emit"]), wd=ctx.wd, timeout=3000)
+    tlc.expect_holds(rg, "Sections(deep heading offsets) M |= S")
+    ctx.add_tlc("Sections_gen_deep_offsets", rg, "includes whose offset pushes headings to levels 10-12")
+    recs += rg.records
     rg = tlc.run("Sections", _cfg(ctx, "s_gen_titles.cfg", {**titles, "MaxLen": 3 if quick else 4}, invariants=invs + ["Emit"]),
                  wd=ctx.wd, timeout=3000)
     tlc.expect_holds(rg, "Sections(match_titles directives, intended) M |= S")
